@@ -21,6 +21,10 @@ def run(c, pid, groups, parts, spec, spec_files, prop_files_quick, prop_files_th
     (default 0) is the tier of the operation in the registry: 1 = traced in the thorough tier only, so neither file is
     compiled in the quick tier."""
     tier = 0 if c.quick() else 1
+    try:
+        workers = max(1, int(os.environ.get("VERIF_JOBS", workers)))
+    except ValueError:
+        pass
     ns = nsamples[tier]
     cfgs = [(g, N) for g in groups for N in (1, 2, 3)]
     # ---- 1. build (parallel)
@@ -55,7 +59,7 @@ def run(c, pid, groups, parts, spec, spec_files, prop_files_quick, prop_files_th
             t = l.split()
             if t and t[0] == "OP":
                 oplist[(t[1], int(t[2]))] = ("" if t[3] == "-" else t[3], t[4], int(t[5]))
-    gen_files, refuted, ntraced, nagree, exec_only = [], {}, 0, 0, []
+    gen_files, refuted, ntraced, nagree, exec_only, deferred = [], {}, 0, 0, [], []
     for (job, out, rc, so, se) in traced:
         if rc != 0:
             c.report("trace:g%d:n%d" % (job[0], job[1]), "tracer failed on /repo's tensor code: " + se[-600:], {"stderr": se[-3000:]}, False)
@@ -64,6 +68,8 @@ def run(c, pid, groups, parts, spec, spec_files, prop_files_quick, prop_files_th
         for l in so.splitlines():
             if l.startswith("TRACED-EXEC-ONLY"):
                 exec_only.append(l.split()[1])
+            elif l.startswith("TRACED-DEFERRED"):
+                deferred.append(l.split()[1])
             elif l.startswith("TRACED"):
                 ntraced += 1
             elif l.startswith("TRACE-FAIL"):
@@ -111,6 +117,10 @@ def run(c, pid, groups, parts, spec, spec_files, prop_files_quick, prop_files_th
             {"operation": nm, "inputs_storage_vectors": ins, "expected": exp, "observed": obs, "component": bad,
              "how": "props/%s/%s gen (real double instantiation) vs props/C02/specnum.py" % (pid, source)}, True)
     c.coverage["traces_validated_against_impl"] = nagree
+    if deferred:
+        c.coverage["executed_only_in_this_tier"] = len(deferred)
+        c.notes.append("%d operation instances are only executed in the quick tier (agreement + numerical specification); their "
+                       "obligations are generated and proved in the thorough tier" % len(deferred))
     if exec_only:
         c.coverage["not_proved_execution_only"] = sorted(exec_only)
         c.notes.append("NOT PROVED (execution only: traced, Sym-vs-double agreement and numerical specification on the seeded inputs, "
@@ -207,6 +217,8 @@ def run(c, pid, groups, parts, spec, spec_files, prop_files_quick, prop_files_th
                 props.append(neg)
         else:
             props.append(pos)
-    res = c.coq(props, timeout=max(1200, limit()))
-    if not res.ok:
-        c.coq_failures(res)
+    # the Properties files do not depend on one another (Print Assumptions walks every proof term: the slow part)
+    with ThreadPoolExecutor(max_workers=workers) as ex:
+        for res in list(ex.map(lambda pf: c.coq([pf], timeout=max(1200, limit())), props)):
+            if not res.ok:
+                c.coq_failures(res)
